@@ -15,7 +15,7 @@ import sys
 
 from ..common import leanio, rtlgen
 from ..common.leanio import InfraError
-from . import c02_methods, c02_gendag, c02_greenlet, c02_openloop
+from . import c02_methods, c02_gendag, c02_greenlet, c02_openloop, c02_callgraph
 
 PID = 'C02'
 DRIVERS = ['rtl']
@@ -63,6 +63,15 @@ THEOREM_MODULE.update({t: c02_gendag.MODULE for t in c02_gendag.THEOREMS})
 TRUSTED = TRUSTED + c02_gendag.TRUSTED
 ASSUMPTIONS = ASSUMPTIONS + c02_gendag.ASSUMPTIONS
 RULE = RULE + '; ' + c02_gendag.RULE
+# ---- begin: @s.func call expansion (Model/CallGraph.lean, Props/C02c.lean, harness/checks/c02_callgraph.py)
+DRIVERS = DRIVERS + c02_callgraph.DRIVERS
+MODULE = MODULE + [c02_callgraph.MODULE]
+THEOREMS = THEOREMS + c02_callgraph.THEOREMS
+THEOREM_MODULE.update(c02_callgraph.THEOREM_MODULE)
+TRUSTED = TRUSTED + c02_callgraph.TRUSTED
+ASSUMPTIONS = ASSUMPTIONS + c02_callgraph.ASSUMPTIONS
+RULE = RULE + '; ' + c02_callgraph.RULE
+# ---- end
 # ---- end: value-constraint model
 
 FLOWS = ['default', 'simple', 'heutopo', 'mamba', 'unroll']
@@ -311,6 +320,7 @@ def run(ck):
   c02_gendag.run(ck)
   # last on purpose: ck.count draws from ck.rng, so a stream inserted earlier would change the designs of the streams above
   c02_openloop.run(ck)      # open-loop (AutoTickSimPass) schedule with top-level callee ports vs the declared constraints
+  c02_callgraph.run(ck)     # expansion of @s.func helper calls into the calling block's read/write sets
 
 def replay(ck, data):
   print(data.get('kind'), data.get('signature')); print(str(data.get('detail'))[:1500])
@@ -318,4 +328,5 @@ def replay(ck, data):
   if (data.get('case') or {}).get('methods'): return c02_methods.replay(ck, data['case'])
   if (data.get('case') or {}).get('greenlet'): return c02_greenlet.replay(ck, data['case'])
   if (data.get('case') or {}).get('openloop'): return c02_openloop.replay(ck, data['case'])
+  if (data.get('case') or {}).get('callgraph'): return c02_callgraph.replay(ck, data['case'])
   return rtlgen.replay_source(ck, data.get('case') or {})
